@@ -151,6 +151,8 @@ def run(tier, seed):
     import envelope
     obs += guarded("C09.engine.envelope.guard_covariance@L151", lambda: envelope.guard_covariance("C09"))
     obs += guarded("C09.engine.vl.run_lemmas@L152", lambda: vl.run_lemmas("C09", ["lemma_fold", "merge_tree", "concat", "swap"]))
+    import rs_crosscheck
+    obs += guarded("C09.engine.rs_crosscheck", lambda: rs_crosscheck.crosscheck("C09", ['Covariance']))
     meta = {
         "level": "proof",
         "checker_cmd": "./check C09 (rsx -> RS executor -> sympy / z3 QF_NRA; verus history.rs)",
